@@ -986,6 +986,13 @@ def run(ctx):
     r7.instances = [i for i in r7.instances if "t_format" in i["site"]]
     r7.violations = [v for v in r7.violations if "t_format" in v.key or "undecided" in v.key]
     rules.append(r7)
+    # every flavour of every family goes through the ICU formatter with the same converted value, on every path (MIR traces,
+    # rules/c02.py R7): no flavour has a shortcut that prints the value without the locale's formatter
+    from rules import c02
+    from rules.common import borrow
+    rules.append(borrow(c02.r7_formatter_pipeline(ctx), "C18.R8", "every entry point formats through the ICU formatter, on every path, with the same converted value",
+                        "`the output equals ICU4X formatting of the value with those options for the locale being rendered`: a fast path that prints the number "
+                        "itself (e.g. when grouping is off) skips the locale's digits and decimal separator", floor=11))
     if ctx.tier == "thorough":
         # the same MIR rules on the client-less build (no ssr / dynamic_load): other cfg branches of the same functions
         for cfg in ("plain", "hydrate"):
